@@ -570,7 +570,7 @@ def run(ctx: C.Ctx):
     ctx.coverage.update({
         "evaluations": len(cases) + len(scripts) + n_extra,
         "distinct_nontrivial": len(distinct),
-        "rule": "2b (stack over parse() -> emit(); proof tie + oracle): (a) 36 (120) seeded random program trees 6-18 blocks deep over 9 block slots (if / elif / else / while / for / try / except bodies, main loop, function body; 1-3 statements per body) and 61 simple statements, 12 (40) ladders of random slot patterns with side statements, and every simple statement at the bottom of a ladder - the deepest interpreter frame of the real parse() / emit() (sys.setprofile, a process without audit hook) against need_prog of Lang/NestDepth.v with the regenerated constants, then the outcome of the real pipeline (firmware / clean ValueError from parse / internal error in emit / clean ValueError from emit) with exactly `room` frames left (room = parse's need, one less, three more, emit's need, one less; sys.setrecursionlimit relative to the calling frame) against the model's pipeline; (b) 250 (294) ladder families - every slot alone around 4 statements, main loop / function body over every slot, every simple statement under an if-ladder and under a two-slot mixture, all ordered pairs of slots, random 2-5-slot patterns with 1-4 side statements per level, every slot around each of the four statements of the repaired finding F-C11-emit-stack-window - each with 36 (and 61) frames of room: the deepest depth parse() accepts is found by bisection (+ look-ahead for non-monotone acceptance), emit() must end in firmware or ValueError there and on the two ladders below, every rejection must be ValueError; a failing family is carried to the default limit (shallowest failing depth with 48 and 72 frames, extrapolated to 999 = emit(parse(text)) at module level, run once) and that script is the replay; (c) expressions nested 1-45 deep (6 shapes) in 10 statement / header positions inside 26 and 38 nested blocks with 60 frames of room: both stages may only fail with ValueError; (d) ladders of 21 block headers outside the supported subset or in other spellings (with / class / nested and async def / match / for over lists and tuples / range with step / inner while True / walrus / while-else / for-else / try-finally / try-else / except-as / elif chains / multi-line and commented headers / lambda bodies) and of tab / two-blank indentation, at 19 depths around the acceptance boundary with 40 frames of room: both stages may only end cleanly. Non-trivial here = every tree / ladder at least 6 blocks deep. 0: the witnesses of the repaired findings (for F-C11-emit-stack-window: the deepest if-ladder around rgb.off() parse() accepts with 80 frames left, and the two below; thorough: the 994- and 993-level scripts under the default recursion limit). 1 (proof tie): the C03 expression stream (boundary expressions x environments incl. the values around the size bound + seeded random expressions) plus hostile expression forms, plus towers / giant shifts / wide products and seeded random integer expressions with exponents and shift counts around and beyond the size bound (size oracle max(bound, widest leaf) + nodes on every call-free result), each through the extracted instrumented model (result, primitive trace) and the real _eval_const under recording wrappers (operator module alias, _SAFE_CASTS values, max/min/abs in the parser's namespace) with sys.setprofile / sys.addaudithook; non-trivial = distinct (expression, environment) on which the real evaluator performed at least one primitive operation. 2 (observed, support): hostile expression forms (file / process / import / eval / attribute / lambda / comprehension / walrus / f-string payloads writing a canary file) in every argument position of the property's quantifier (pins, delays, conditions, loop bounds, list items, f-strings, decorators, defaults, device constructor keywords, expression statements), generated expressions in the same positions, real Python sources (the project's own files and standard-library modules), byte noise / shuffled / truncated / corrupted scripts, plus the formerly excluded regions (infinity / NaN / beyond-float-range values x every position incl. all int()/float() resolver sites, towers-shifts-products x positions, multi-line squaring chains, expressions 150..20000 levels deep x positions) - each through the real parse()+emit() with audit hook, canary check, exception kind and a 30 s limit; non-trivial = distinct hostile script that was accepted (firmware produced) - the ones where evaluating the payload would have been possible. 3 (promptness): the regenerated regex inventory - (a) model vs re.fullmatch on the minimal text of each pattern, its pumps and seeded edits of them; (b) pump scripts: for every unbounded repeat of every pattern x up to three feeds (characters of its set / the group's text / the inner set of a nested repeat) x continuations (the rest of the pattern, cut after the run, + one of ! ( [0] ' + 1' \\x01) at 28 characters (every place a line can stand: top level, while / if / else / for / def / try bodies, right-hand side; argument positions incl. quoted pin strings for the patterns applied to arguments) and at 1200 (quick) / 400, 1500, 6000 (thorough) characters, white-space runs cut to the guard; (c) 28 run alphabets x 41 statement frames (target(<run>()), h = target(<run>[0]), names, conditions, decorators, imports, except clauses ...) at 40 and 1500 characters; (d) 23 scale families (many lines / long lines / CRLF) at 250 .. 2000 (8000) by doubling. A script is slow when it needs more than max(5 s, 200 x the median of its stream) twice, the second time alone in a new process; the replay carries the series over growing runs. (e) pieces that refer to each other: 36 fixed helper chains + seeded random scripts of 1..7 defs (return sums of parameters, literals of the four type labels and calls of earlier / later / the same function with parameters or literals as arguments, arity 1..3) with top-level calls between and after the defs, through Lang/VariantCost.v (extracted) and the real parser under a wrapper around _parse_function: the ordered sequence (function, forced signature) must be equal, and no pair may occur twice; 37 depth families of helpers calling each other (see technique) at depth 3, 6, 12, 24 (thorough: .. 96): a family is not prompt when the time more than quintuples over each of the last two doublings AND exceeds 200 x (its own time at depth 3, at most the median family, at least 5 ms) x depth / 3, twice (the second time alone in a new process); the replay carries the series with the body-parse and block-parse counts. 4 (state): sessions - per literal text (lists with duplicates, nested, computed, tuples, strings, numbers) reader scripts (len, flash_pattern, glyph, index, loop bound, f-string) and mutator scripts (append / remove / += / item store / rebinding / aliases / inside if-while-for-def, under another variable name), transpiled in ONE process as readers, mutators, readers, shuffled mutators, mutators again, readers - every output must equal the script's output alone in a new process (sha256 / exception kind); on a difference every earlier script is tried as single predecessor: the replay is the two-script session; module-level objects of the three modules are digested before / after every parse (a change breaks the tie of Lang/FoldSession.v); random sessions of the model fragment through the extracted model vs the folded values read off the firmware.",
+        "rule": "2b (stack over parse() -> emit(); proof tie + oracle): (a) 36 (120) seeded random program trees 6-18 blocks deep over 9 block slots (if / elif / else / while / for / try / except bodies, main loop, function body; 1-3 statements per body) and 61 simple statements, 12 (40) ladders of random slot patterns with side statements, and every simple statement at the bottom of a ladder - the deepest interpreter frame of the real parse() / emit() (sys.setprofile, a process without audit hook) against need_prog of Lang/NestDepth.v with the regenerated constants, then the outcome of the real pipeline (firmware / clean ValueError from parse / internal error in emit / clean ValueError from emit) with exactly `room` frames left (room = parse's need, one less, three more, emit's need, one less; sys.setrecursionlimit relative to the calling frame) against the model's pipeline; (b) 252 (327) ladder families - every slot alone around 4 statements, main loop / function body over every slot, every simple statement under an if-ladder and under a two-slot mixture, all ordered pairs of slots, random 2-5-slot patterns with 1-4 side statements per level, every slot around each of the four statements of the repaired finding F-C11-emit-stack-window - each with 36 (and 61) frames of room: the deepest depth parse() accepts is found by bisection (+ look-ahead for non-monotone acceptance), emit() must end in firmware or ValueError there and on the two ladders below, every rejection must be ValueError; a failing family is carried to the default limit (shallowest failing depth with 48 and 72 frames, extrapolated to 999 = emit(parse(text)) at module level, run once) and that script is the replay; (c) expressions nested 1-45 deep (6 shapes) in 10 statement / header positions inside 26 and 38 nested blocks with 60 frames of room: both stages may only fail with ValueError; (d) ladders of 21 block headers outside the supported subset or in other spellings (with / class / nested and async def / match / for over lists and tuples / range with step / inner while True / walrus / while-else / for-else / try-finally / try-else / except-as / elif chains / multi-line and commented headers / lambda bodies) and of tab / two-blank indentation, at 19 depths around the acceptance boundary with 40 frames of room: both stages may only end cleanly. Non-trivial here = every tree / ladder at least 6 blocks deep. 0: the witnesses of the repaired findings (for F-C11-emit-stack-window: the deepest if-ladder around rgb.off() parse() accepts with 80 frames left, and the two below; thorough: the 994- and 993-level scripts under the default recursion limit). 1 (proof tie): the C03 expression stream (boundary expressions x environments incl. the values around the size bound + seeded random expressions) plus hostile expression forms, plus towers / giant shifts / wide products and seeded random integer expressions with exponents and shift counts around and beyond the size bound (size oracle max(bound, widest leaf) + nodes on every call-free result), each through the extracted instrumented model (result, primitive trace) and the real _eval_const under recording wrappers (operator module alias, _SAFE_CASTS values, max/min/abs in the parser's namespace) with sys.setprofile / sys.addaudithook; non-trivial = distinct (expression, environment) on which the real evaluator performed at least one primitive operation. 2 (observed, support): hostile expression forms (file / process / import / eval / attribute / lambda / comprehension / walrus / f-string payloads writing a canary file) in every argument position of the property's quantifier (pins, delays, conditions, loop bounds, list items, f-strings, decorators, defaults, device constructor keywords, expression statements), generated expressions in the same positions, real Python sources (the project's own files and standard-library modules), byte noise / shuffled / truncated / corrupted scripts, plus the formerly excluded regions (infinity / NaN / beyond-float-range values x every position incl. all int()/float() resolver sites, towers-shifts-products x positions, multi-line squaring chains, expressions 150..20000 levels deep x positions) - each through the real parse()+emit() with audit hook, canary check, exception kind and a 30 s limit; non-trivial = distinct hostile script that was accepted (firmware produced) - the ones where evaluating the payload would have been possible. 3 (promptness): the regenerated regex inventory - (a) model vs re.fullmatch on the minimal text of each pattern, its pumps and seeded edits of them; (b) pump scripts: for every unbounded repeat of every pattern x up to three feeds (characters of its set / the group's text / the inner set of a nested repeat) x continuations (the rest of the pattern, cut after the run, + one of ! ( [0] ' + 1' \\x01) at 28 characters (every place a line can stand: top level, while / if / else / for / def / try bodies, right-hand side; argument positions incl. quoted pin strings for the patterns applied to arguments) and at 1200 (quick) / 400, 1500, 6000 (thorough) characters, white-space runs cut to the guard; (c) 28 run alphabets x 41 statement frames (target(<run>()), h = target(<run>[0]), names, conditions, decorators, imports, except clauses ...) at 40 and 1500 characters; (d) 23 scale families (many lines / long lines / CRLF) at 250 .. 2000 (8000) by doubling. A script is slow when it needs more than max(5 s, 200 x the median of its stream) twice, the second time alone in a new process; the replay carries the series over growing runs. (e) pieces that refer to each other: 36 fixed helper chains + seeded random scripts of 1..7 defs (return sums of parameters, literals of the four type labels and calls of earlier / later / the same function with parameters or literals as arguments, arity 1..3) with top-level calls between and after the defs, through Lang/VariantCost.v (extracted) and the real parser under a wrapper around _parse_function: the ordered sequence (function, forced signature) must be equal, and no pair may occur twice; 37 depth families of helpers calling each other (see technique) at depth 3, 6, 12, 24 (thorough: .. 96): a family is not prompt when the time more than quintuples over each of the last two doublings AND exceeds 200 x (its own time at depth 3, at most the median family, at least 5 ms) x depth / 3, twice (the second time alone in a new process); the replay carries the series with the body-parse and block-parse counts. 4 (state): sessions - per literal text (lists with duplicates, nested, computed, tuples, strings, numbers) reader scripts (len, flash_pattern, glyph, index, loop bound, f-string) and mutator scripts (append / remove / += / item store / rebinding / aliases / inside if-while-for-def, under another variable name), transpiled in ONE process as readers, mutators, readers, shuffled mutators, mutators again, readers - every output must equal the script's output alone in a new process (sha256 / exception kind); on a difference every earlier script is tried as single predecessor: the replay is the two-script session; module-level objects of the three modules are digested before / after every parse (a change breaks the tie of Lang/FoldSession.v); random sessions of the model fragment through the extracted model vs the folded values read off the firmware.",
         "samples": [{"expr": hostile[0][0]}, {"script": scripts[0][1][len(HEADER):]}, {"script": scripts[len(pairs) // 2][1][len(HEADER):]}],
         "distribution": dict(sorted(stats.items())),
         "max_wall_s_per_script": max(walls) if walls else 0,
@@ -580,7 +580,7 @@ def run(ctx: C.Ctx):
         "max_const_bits": max_bits,
         "unmodelled": ["the Python process executing parser.py / emitter.py (string building, the hand-written scanners): observed by audit hook + canaries + exception kinds + timing, support only - not proved; of the regex engine only the number of backtracking paths of the textbook search is modelled (sets restricted to ASCII + a flag, anchors and the one-character look-behind as empty matches) - the engine's own optimisations, its cost per path and non-regex loops are measured (pumps, scale families), not proved",
                        "of the def / call machinery only the memo in front of _parse_function and the one-return-sum fragment are modelled (the number of body parses is the cost; the cost of one body parse, statements other than return, annotations, redefinition of a name, keyword / default arguments, list-typed parameters are measured by the depth families, not proved)", "[paths] counts the successes of a (sub)pattern; the theorem bounds every flat sub-pattern, the total work of a failing match is a sum of such counts over prefixes (not stated as one theorem)",
-                       "CPython's int->str digit limit; the C-level recursion limit of ast.parse (deep EXPRESSIONS: observed on the deep stream and in 2b c, not modelled); of the Python-level recursion limit the frames per block slot / header / simple statement are modelled with measured constants for 61 statement shapes (other statements: boundary oracle only); parse() may accept with fewer frames than its deepest frame when a RecursionError is swallowed by a try / except Exception inside a statement recogniser (counted in distribution) - the model's acceptance need <= room is a lower bound of the real one, the boundary oracle searches the real one; time of deep ladders (text quadratic, parse time cubic in the depth: 48 s at 990 levels) is not judged", "IEEE infinities / NaN and the binary64 range (the model's floats are exact rationals): int(inf) / float(<huge int>) at the folding call sites fall back to the run-time expression - observed on the infinity stream in every numeric position, not modelled", "growth of folded strings across lines (s = s + s repeated: 2^n characters after n lines; ends in a caught MemoryError and the run-time expression, about 10 s under an 8 GB limit) - outside the three repaired findings, not generated", "target() reading the file (C12)", "ast.literal_eval fallbacks (flash_pattern, ultrasonic model): exercised by the hostile scripts, not modelled",
+                       "CPython's int->str digit limit; the C-level recursion limit of ast.parse (deep EXPRESSIONS: observed on the deep stream and in 2b c, not modelled); of the Python-level recursion limit the frames per block slot / header / simple statement are modelled with measured constants for 61 statement shapes (other statements: boundary oracle only); parse() may accept with fewer frames than its deepest frame when a RecursionError is swallowed by a try / except Exception inside a statement recogniser (counted in distribution) - the model's acceptance need <= room is a lower bound of the real one, the boundary oracle searches the real one; time of deep ladders (text quadratic, parse time cubic in the depth: 48 s at 990 levels) is not judged; `room` is the number of frames left when a stage is entered: a caller with no frame left at all cannot call parse() / emit() (the RecursionError is then raised in the caller's own frame, not by the transpiler) - rooms below the prelude's need only occur in the model; the MemoryError half of the two wrappers is not exercised", "IEEE infinities / NaN and the binary64 range (the model's floats are exact rationals): int(inf) / float(<huge int>) at the folding call sites fall back to the run-time expression - observed on the infinity stream in every numeric position, not modelled", "growth of folded strings across lines (s = s + s repeated: 2^n characters after n lines; ends in a caught MemoryError and the run-time expression, about 10 s under an 8 GB limit) - outside the three repaired findings, not generated", "target() reading the file (C12)", "ast.literal_eval fallbacks (flash_pattern, ultrasonic model): exercised by the hostile scripts, not modelled",
                        "environment reads (os.environ) have no audit event: only the canary / builtins profile would show them inside _eval_const"],
         "trusted_base": C.COMMON_TRUSTED + ["harness/gen/safecasts.py (operator / cast / safe-name tables of parser.py)", "harness/gen/regexes.py (walks the ast of parser.py / emitter.py / ast.py / __init__.py / pio.py for re.* calls, evaluates the pattern expressions, cross-checks with the compiled module-level objects, lowers CPython's re._parser parse; fail-closed)", "harness/gen/setsites.py (module-level state inventory, shared with C10)", "harness/gen/nestdepth.py + harness/c11_nest.py (sys.setprofile frame counting of the real parse() / emit() on ladders, linear fit re-checked on six further ladders, fail-closed; sys.setrecursionlimit relative to the calling frame as the definition of `room`)", "the recording wrappers around parser._parse_function / _parse_simple_lines (module attributes, resolved at call time) as the observation of body parses", "wall-clock time of the implementation runner as the observation of 'promptly' (relative to the median of the same stream, confirmed in a second process)",
                                             "CPython audit events and sys.setprofile c_call events as the observation of 'access' and 'call' (support part)"],
